@@ -561,14 +561,14 @@ func exhaustiveSubspaces(prop, tier string) []string {
 	switch prop {
 	case "C01":
 		if th {
-			return []string{"every index 0..2^h-1 signed/validated plus the refused attempt at 2^h: stub leaves h in {4,6,8,10,12,14,16,18} x 3 hash functions; real leaves h in {4,6,8,10} x 3 hash functions"}
+			return []string{"every index 0..2^h-1 signed/validated plus the refused attempt at 2^h: stub leaves h in {4,6,8,10,12,14,16,18} x 3 hash functions; real leaves h in {4,6,8,10} x 3 hash functions", "every single forward jump i -> j (0 <= i <= j < 2^h), path checked at j..j+3 and at the last index: stub leaves h in {4,6,8}"}
 		}
-		return []string{"every index 0..2^h-1 signed/validated plus the refused attempt at 2^h: stub leaves h in {4,6,8,10,12,14} x 3 hash functions; real leaves h in {4,6} x 3 hash functions"}
+		return []string{"every index 0..2^h-1 signed/validated plus the refused attempt at 2^h: stub leaves h in {4,6,8,10,12,14} x 3 hash functions; real leaves h in {4,6} x 3 hash functions", "every single forward jump i -> j (0 <= i <= j < 2^h), path checked at j..j+3 and at the last index: stub leaves h in {4,6}"}
 	case "C08":
 		if th {
-			return []string{"every crash index i in [0,2^h] x 4 secret forms x 4 restore-plan kinds, each drained to the end of the key's life: stub leaves h in {4,6,8}, real leaves h in {4,6}"}
+			return []string{"every crash index i in [0,2^h] x 4 secret forms x 4 restore-plan kinds, each drained to the end of the key's life: stub leaves h in {4,6,8}, real leaves h in {4,6}", "every single forward jump i -> j compared with a twin that took unit steps: stub leaves h in {4,6,8}"}
 		}
-		return []string{"every crash index i in [0,2^h] x 4 secret forms x 4 restore-plan kinds, each drained to the end of the key's life: stub leaves h in {4,6}, real leaves h = 4"}
+		return []string{"every crash index i in [0,2^h] x 4 secret forms x 4 restore-plan kinds, each drained to the end of the key's life: stub leaves h in {4,6}, real leaves h = 4", "every single forward jump i -> j compared with a twin that took unit steps: stub leaves h in {4,6}"}
 	case "C09":
 		return []string{"entropy failure after k bytes for every k in [0,48), XMSS and Dilithium", "every (height, hash function) cell of the listed heights with all four XMSS restore paths"}
 	}
